@@ -187,6 +187,16 @@ def rule_fields(chk, prog, reg, vs, hcls):
       kw = [k for k in n.value.keywords if k.arg is None][0]
       if isinstance(kw.value, ast.Name):
         slot_of_var[kw.value.id] = n.targets[0].id
+  # the slot of a constructed object is its position in the returned CoordinateSystem(horizontal, vertical), not its local name
+  for n in ast.walk(g.node):
+    if isinstance(n, ast.Return) and isinstance(n.value, ast.Call):
+      slots_by_pos = dict(zip(('horizontal', 'vertical'), n.value.args))
+      slots_by_pos.update({k.arg: k.value for k in n.value.keywords if k.arg in ('horizontal', 'vertical')})
+      for slot, a_ in slots_by_pos.items():
+        if isinstance(a_, ast.Name):
+          for var, tgt in list(slot_of_var.items()):
+            if tgt == a_.id:
+              slot_of_var[var] = slot
   ev = sym.Evaluator(prog)
   for n in ast.walk(g.node):
     if isinstance(n, ast.Call) and isinstance(n.func, ast.Attribute) and n.func.attr == 'pop' and isinstance(n.func.value, ast.Name) and n.args:
@@ -250,8 +260,20 @@ def rule_fields(chk, prog, reg, vs, hcls):
   # user attrs cannot overwrite the serialised coordinates
   for fn in ('data_to_xarray', 'dynamic_covariate_data_to_xarray'):
     f = prog.func(f'{XU}.{fn}')
-    guard = [n for n in ast.walk(f.node) if isinstance(n, ast.For) and any(isinstance(x, ast.Raise) for x in ast.walk(n)) and 'dataset_attrs' in unparse(n.iter)]
-    upd = [n for n in ast.walk(f.node) if isinstance(n, ast.Call) and unparse(n.func) == 'dataset_attrs.update']
+    # the dict that receives the serialised coordinates, under whatever local name(s): assigned from `….asdict()` or from an alias of it
+    names_in = lambda node: {x.id for x in ast.walk(node) if isinstance(x, ast.Name)}
+    holders = set()
+    changed = True
+    while changed:
+      changed = False
+      for n in ast.walk(f.node):
+        if isinstance(n, ast.Assign) and len(n.targets) == 1 and isinstance(n.targets[0], ast.Name) and n.targets[0].id not in holders:
+          has_asdict = any(isinstance(x, ast.Call) and isinstance(x.func, ast.Attribute) and x.func.attr == 'asdict' for x in ast.walk(n.value))
+          if has_asdict or (names_in(n.value) & holders and not any(isinstance(x, ast.Call) for x in ast.walk(n.value) if not (isinstance(x.func, ast.Attribute) and x.func.attr in ('keys', 'asdict')))):
+            holders.add(n.targets[0].id)
+            changed = True
+    guard = [n for n in ast.walk(f.node) if isinstance(n, ast.For) and any(isinstance(x, ast.Raise) for x in ast.walk(n)) and names_in(n.iter) & holders]
+    upd = [n for n in ast.walk(f.node) if isinstance(n, ast.Call) and isinstance(n.func, ast.Attribute) and n.func.attr == 'update' and isinstance(n.func.value, ast.Name) and n.func.value.id in holders]
     ok = bool(guard) and bool(upd) and all(u.lineno > guard[0].lineno for u in upd) and any(isinstance(x, ast.Compare) and isinstance(x.ops[0], ast.In) for x in ast.walk(guard[0]))
     chk.check(ok, rule, f'{XU}.{fn}: user attrs colliding with a serialised key raise before being merged', unparse(guard[0])[:120] if guard else 'no guard', (f.file, f.lineno))
   chk.at_least(rule, 25)
@@ -573,7 +595,16 @@ def branch_actions(stmts, var, D, T, nk, slots, site):
 
 def rule_flatten(chk, prog):
   rule = 'C19.5-flatten-dict'
-  fl, un, rp = (prog.func(f'{PT}.{n}') for n in ('flatten_dict', 'unflatten_dict', 'replace_with_matching_or_default'))
+  from sa import astnorm
+  import types
+  raw = [prog.func(f'{PT}.{n}') for n in ('flatten_dict', 'unflatten_dict', 'replace_with_matching_or_default')]
+  sigs = {r_.name: [a_.arg for a_ in r_.args.args] for r_ in raw}
+  # the rule reads this imperative list-building code as syntax: temporaries are substituted back and call arguments put in
+  # positional order first, so that the spelling of a statement does not matter
+  def view(r_):
+    node = astnorm.normalised(r_.node, sigs)
+    return types.SimpleNamespace(node=node, file=r_.file, lineno=r_.lineno, name=r_.name, qualname=r_.qualname, param_names=r_.param_names, args=r_.args)
+  fl, un, rp = (view(r_) for r_ in raw)
   site, loc = f'{PT}.flatten_dict', (fl.file, fl.lineno)
   kinds = element_kinds(fl.node)
   ret = [n for n in ast.walk(fl.node) if isinstance(n, ast.Return) and isinstance(n.value, ast.Tuple)]
